@@ -112,7 +112,7 @@ def oracle(case):
                  {"value": repr(v)[:300], "stats": stats})
     nt = stats["depth"] >= 2 or stats["local"] or stats["inherit"] or stats["serial"] or path.startswith("rpc")
     classes = ["path:" + path, "where:" + where, "depth:%d" % min(stats["depth"], 4)]
-    for k in ("local", "inherit", "serial", "enum", "decimal", "bean_in_field"):
+    for k in ("local", "inherit", "serial", "enum", "decimal", "bean_in_field", "homonyms"):
         if stats[k]:
             classes.append(k)
     if not stats["beans"] and not stats["enum"] and not stats["decimal"]:
